@@ -1242,6 +1242,9 @@ impl Fam for V5 {
     fn header_decode(bytes: &[u8]) -> Result<HdrInfo, ErrorV5> {
         Header::decode(bytes).map(hdr_info)
     }
+    async fn header_decode_async<R: AsyncRead + Unpin>(r: &mut R) -> Result<HdrInfo, ErrorV5> {
+        Header::decode_async(r).await.map(hdr_info)
+    }
     fn header_new_with(byte: u8, rl: u32) -> Result<HdrInfo, ErrorV5> {
         Header::new_with(byte, rl).map(hdr_info)
     }
